@@ -281,7 +281,7 @@ Qed.
 (* ------------------------------------------------------------------------------ *)
 (* a FieldIsMissing error names the entry being formatted and a field / role that is not defined *)
 Definition field_undefined (c : ctx) (name : str) : Prop :=
-  find_field (S (match c_db c with Some d => length d | None => 0 end)) (c_db c) (c_entry c) name [] = Some None.
+  find_field (ff_fuel (c_db c)) (c_db c) (c_entry c) name [] = Some None.
 Definition role_undefined (c : ctx) (role : str) : Prop := ci_get role (e_persons (c_entry c)) = None.
 
 Lemma tmapM_missing {X Y} (f : X -> tres Y) l fl k :
